@@ -35,6 +35,9 @@ type Prog struct {
 	pkgSh  map[string]string // package path -> short name
 	fninfo map[*ssa.Function]*FnInfo
 	errnos map[int64]string
+	// AllPkgs maps every loaded package path (dependencies included) to its
+	// syntax and type information.
+	AllPkgs map[string]*packages.Package
 }
 
 // LoadOpts selects the build to analyse.
@@ -111,6 +114,8 @@ func Load(opts LoadOpts) (*Prog, error) {
 	if pkgs[0].Module != nil {
 		p.ModPath = pkgs[0].Module.Path
 	}
+	p.AllPkgs = map[string]*packages.Package{}
+	packages.Visit(pkgs, nil, func(pk *packages.Package) { p.AllPkgs[pk.PkgPath] = pk })
 	for _, pk := range pkgs {
 		p.pkgSh[pk.PkgPath] = pk.Name
 	}
